@@ -82,9 +82,13 @@ KINDS = {"pyexc": '@s = int(#a)', "argtype": '@s = add(#a, 1)', "rule": '@s = su
          # the error is in the condition of a when/do whose action is fail(): a condition that raised did not come out true, the action does not run
          "whenfail": 'lt(int(#a), -5) -> fail()',
          # two errors on one line: add() reports its non-numeric argument, gt() that it cannot continue over an invalid child — each is handled
-         "nested2": 'gt(add(#a, 1), 0)'}
+         "nested2": 'gt(add(#a, 1), 0)',
+         # two nested faults under one parent: add() and subtract() each report theirs, gt() that it cannot continue — three errors
+         "nested3": 'gt(add(#a, 1), subtract(#a, 1))',
+         # one nested fault under a parent used for its value: exactly one error (the parent sees a failed argument, not a missing one)
+         "nestedval": '@v = add(add(#a, 1), 2)'}
 # the errors one offending line raises (each is handled: one record under 'collect', one message under 'print')
-PER_LINE = {"whenfail": 2, "nested2": 2}      # (-5: lt() answers <= — open finding D1 — and a cell may hold 0)
+PER_LINE = {"whenfail": 2, "nested2": 2, "nested3": 3, "nestedval": 1}      # (-5: lt() answers <= — open finding D1 — and a cell may hold 0)
 
 
 def run_impl(job):
@@ -237,7 +241,7 @@ def run(ctx):
                 offs = [rng.choice(OFF)] if quick else OFF
                 if kind == "lasts":
                     offs = [set()]
-                if kind in ("whenfail", "nested2") and vm.get("match") is True:
+                if kind in ("whenfail", "nested2", "nested3") and vm.get("match") is True:
                     continue
                 for off in offs:
                     rjobs.append((kind, pol, vm, off))
